@@ -36,7 +36,8 @@ Definition set_fin  (b : bool) (h : hdr) := Hdr (h_rc h) (h_tc h) (h_mark h) b (
 Definition set_side (b : bool) (h : hdr) := Hdr (h_rc h) (h_tc h) (h_mark h) (h_fin h) b.
 
 (** CounterMarker::new_with_counter_to_one *)
-Definition hdr_new (already_finalized : bool) : hdr := Hdr 1 0 NM already_finalized false.
+(** the tracing word starts at INITIAL_VALUE_TRACING_COUNTER = 1: a fresh object has tc = 1 *)
+Definition hdr_new (already_finalized : bool) : hdr := Hdr 1 1 NM already_finalized false.
 
 (** increment_counter / decrement_counter: [None] = Err(OverflowError), header unchanged. *)
 Definition inc_rc (h : hdr) : option hdr :=
